@@ -137,7 +137,7 @@ Definition run_try_as_spdc (U : units Q) (minpos : Q) (t : otable) (c : spdc_cfg
 (* try_as_optimum likewise *)
 Definition run_try_as_optimum (minpos : Q) (t : otable) (s : spdc Q) (real : option (spdc Q)) : string :=
   let K := oracles_of_table t in
-  let r := try_as_optimum Q_ops K minpos s in
+  let r := try_as_optimum Q_ops K minpos optimum_idler_sees_old_poling optimum_waist_sees_old_idler s in
   report r [] (match r, real with Ok (s', nf), Some rs => check_spdc s' nf rs | _, _ => [] end).
 
 (* ---- comparison of two configurations (the generated setup -> configuration conversion run on the implementation's
